@@ -105,9 +105,23 @@ func (o *PubSub[T]) PubSliceSync(evs []T) {
 }
 
 func (o *PubSub[T]) send(ev T, sub chan T, timeout time.Duration, onTimeout func(T)) {
-	if !SendTimeout(sub, ev, timeout) && onTimeout != nil {
+	sent, closed := trySendTimeout(sub, ev, timeout)
+	if !sent && !closed && onTimeout != nil {
 		onTimeout(ev)
 	}
+}
+
+// trySendTimeout is SendTimeout for a subscription channel that a concurrent
+// Unsub or UnsubAll may close while the send is still in flight: instead of
+// panicking with "send on closed channel" it reports that the subscription is
+// gone, so nothing is delivered to it.
+func trySendTimeout[T any](sub chan T, ev T, timeout time.Duration) (sent, closed bool) {
+	defer func() {
+		if recover() != nil {
+			sent, closed = false, true
+		}
+	}()
+	return SendTimeout(sub, ev, timeout), false
 }
 
 func (o *PubSub[T]) sendWaitGroup(ev T, sub chan T, timeout time.Duration, onTimeout func(T), wg *sync.WaitGroup) {
